@@ -18,6 +18,8 @@ CONSTANTS NC, NT,          \* tokens each endpoint wants to send
           HonourVeto,      \* TRUE: a vetoed chunk is not forwarded
           CloseConnOnVeto, \* TRUE: veto closes the user's connection
           LateVetoCloses,  \* TRUE: a veto in the copier that finishes second still closes the connection (FALSE: tree as found)
+          HookMax,         \* the request hook may have read up to this many tokens from the stream before the dial (0: never hooked)
+          PutbackFirst,    \* TRUE: what the hook read is written to the target before relaying starts (mutant: dropped)
           DrainOnEOF,      \* TRUE: the chunk read together with EOF is forwarded (mutant drops the tail)
           GenHist
 
@@ -131,11 +133,15 @@ ParentClose ==                               \* tConn.Close(); stream.Close(); C
   /\ IF result = "veto" /\ CloseConnOnVeto THEN Feed(<< E("ConnClosed") @@ [code |-> 263] >>) ELSE UNCHANGED mon
   /\ UNCHANGED <<wC, wT, cliClosed, tgtClosed, up, down, result, nveto, hist>>
 
-Init == /\ cs = Q0 /\ st = Q0 /\ ts = Q0 /\ sc = Q0 /\ wC = 0 /\ wT = 0
+\* A hooked connection starts with h tokens already read from the stream by the request hook (sniffing) and handed
+\* back as "putback": handleTCPRequest writes them to the target before the copy loops start.
+Init == \E h \in 0..HookMax :
+        /\ cs = Q0 /\ ts = Q0 /\ sc = Q0 /\ wC = h /\ wT = 0
+        /\ st = [Q0 EXCEPT !.q = IF PutbackFirst THEN [i \in 1..h |-> i] ELSE <<>>]
         /\ cliClosed = FALSE /\ tgtClosed = FALSE
         /\ up = [pc |-> "read", held |-> 0] /\ down = [pc |-> "read", held |-> 0]
         /\ parent = "wait" /\ result = "none" /\ nveto = 0 /\ hist = <<>>
-        /\ mon = [P!MonInit EXCEPT !.logger = TRUE, !.chunk = 1]
+        /\ mon = [P!MonInit EXCEPT !.logger = TRUE, !.chunk = 1, !.hooked = h > 0, !.sentC = h]
 
 Next == \/ CWrite \/ TWrite \/ CClose \/ TClose \/ TRead \/ TSeesEOF \/ CRead \/ CSeesEOF
         \/ (LogBeforeWrite /\ URead) \/ (~LogBeforeWrite /\ up.pc = "read" /\ (cs.dead \/ cs.q = <<>>) /\ URead)
